@@ -149,11 +149,9 @@ class FloatValidatorBase(FieldValidator[_P, float], Generic[_P, _C], metaclass=A
             ValueError: Value cannot be precisely represented with this datatype
         """
 
-        # Note: This may not be worth it since this is a rare overflow case.
+        # Note: every element is checked, max()/min() are defeated by a NaN in the sequence
         try:
-            if math.isinf(self._ctype(max(value)).value) or math.isinf(
-                self._ctype(min(value)).value
-            ):
+            if any(math.isinf(self._ctype(v).value) for v in value):
                 raise ValueError(
                     f"{value} contains value(s) that can not be represented as a {type(self).__name__}"
                 )
